@@ -98,6 +98,8 @@ def facade_pairs(r, quick):
                     with scen.time_limit(scen.WATCHDOG_S):
                         o.search(f, n_iter=9 if name in gen.SMBO else 18, verbosity=False)
                     res.append((o.search_data, o.best_score, o.best_para))
+                except C.Infra:
+                    raise
                 except Exception as e:  # noqa
                     res.append(("exc", type(e).__name__, str(e)[:80]))
             a, b = res
